@@ -8,6 +8,12 @@ pub struct PartialModel { _p: u8 }
 
 impl PartialModel {
     pub uninterp spec fn lits(&self) -> Seq<Literal>;
+    /// the value the model gives a variable (None if unset); `get` is the real accessor's contract, proved in unit cnf
+    pub uninterp spec fn val(&self, l: VarLabel) -> Option<bool>;
+    #[verifier::external_body]
+    pub fn get(&self, label: VarLabel) -> (r: Option<bool>)
+        ensures r == self.val(label),
+    { unimplemented!() }
 }
 
 #[verifier::external_body]
